@@ -37,6 +37,12 @@ def numbered_limit_p(r):
     return r.freq in ("MONTHLY", "YEARLY") and any(o for o, _ in r.byday) and bool(r.bymonthday or r.byyearday)
 
 
+def yearly_combo_p(r):
+    """class of the recorded finding D129: a YEARLY rule in which BYWEEKNO or BYYEARDAY meets BYMONTH, BYMONTHDAY or each other"""
+    return r.freq == "YEARLY" and bool(r.byweekno or r.byyearday) and \
+        bool(r.bymonth or r.bymonthday or (r.byweekno and r.byyearday))
+
+
 def calendar(ds, r, uid):
     return ("BEGIN:VCALENDAR\nVERSION:2.0\nBEGIN:VEVENT\nUID:%s\nSUMMARY:x\nDTSTART%s:%s\nRRULE:%s\nEND:VEVENT\nEND:VCALENDAR\n" % (
         uid, ";VALUE=DATE" if ds[3] is None else "", rrgen.dtstart_text(ds) + ("" if ds[3] is None else "Z"), r.text()))
@@ -51,7 +57,7 @@ def run(ctx):
     cases = []
     for i in range(ncases):
         ds = rrgen.gen_dtstart(rng)
-        cases.append((ds, rrgen.gen_rule(rng, ds, big_times=(i % 10 == 9), numbered_limit=0.25)))
+        cases.append((ds, rrgen.gen_rule(rng, ds, big_times=(i % 10 == 9), numbered_limit=0.25, yearly_combos=0.15)))
     res, st, err = p_rr.run_cases(ctx, exe, cases, npop, timeout=120)
     fails, corr = [], []
     known = collections.Counter()
@@ -70,6 +76,8 @@ def run(ctx):
         want = parse_struct_expect(x["rule"])
         if x["struct"] != want:
             fails.append((x, "snarf_rrule reads RRULE:%s as\n   %s\nexpected\n   %s" % (x["rule"].text(), x["struct"], want)))
+        elif x["verdict"] and yearly_combo_p(x["rule"]):
+            known["yearly-parts-union"] += 1
         elif x["verdict"] and numbered_limit_p(x["rule"]):
             known["numbered-byday-limit"] += 1
         elif x["verdict"]:
@@ -123,6 +131,7 @@ def run(ctx):
     ctx.cov.update({
         "known_class_hits": dict(known),
         "rules_in_class_numbered_byday_limit": sum(1 for x in res if numbered_limit_p(x["rule"])),
+        "rules_in_class_yearly_parts_union": sum(1 for x in res if yearly_combo_p(x["rule"])),
         "evaluations": len(res) + len(fops) + len(pops),
         "distinct_nontrivial": len(set(x["op"] for x in res)) + len(set(fops)) + len(set(pops)),
         "traces_validated_against_impl": len(ops) + len(fops) - len(corr) - unmodelled,
